@@ -2941,7 +2941,12 @@ def groupby_reduce(
         ).reshape(result.shape[:-1] + grp_shape)
         groups = final_groups
 
-    if is_bool_array and (_is_minmax_reduction(func) or _is_first_last_reduction(func)):
+    if (
+        is_bool_array
+        and (_is_minmax_reduction(func) or _is_first_last_reduction(func))
+        # a fill_value that is not a boolean would be lost by the cast
+        and (fill_value is None or fill_value in (0, 1))
+    ):
         result = result.astype(bool)
 
     # Output of count has an int dtype.
